@@ -7,7 +7,7 @@ import os
 
 from ..loader import AnalysisError, call_attr, call_name, dotted, unparse, walk_own
 from ..prototab import ProtoTable, elem_schema, field_names, find_field, sig
-from ..rulekit import arg_of, const_value, def_value, is_none_test, local_defs, holds_at
+from ..rulekit import arg_of, const_value, def_value, is_none_test, local_defs, holds_at, must_facts
 from ..symeval import Const, Field, ListV, StructV, SymEval, Tup, Unk, deps_of
 from . import c12
 
@@ -234,9 +234,25 @@ def rule_select(ctx):
             # guard facts that hold on every path to the build (any spelling: chained, two tests, negated skip-guards)
             ver = f"{unparse(a0)}.API_VERSION"
             ok = holds_at(c, b, mn, "<=", ver) and holds_at(c, b, ver, "<=", mx)
+            chosen_local = False
+            if not ok and isinstance(a0, ast.Name):
+                # the search-then-build form: `found = None; for c in reversed(_CLASSES): if in range: found = c; break` ... build(found)
+                ds = local_defs(c, a0.id)
+                hits = [d for d in ds if isinstance(def_value(d), ast.Name)]
+                nones = [d for d in ds if isinstance(def_value(d), ast.Constant) and def_value(d).value is None]
+                if len(hits) == 1 and len(hits) + len(nones) == len(ds):
+                    lv_ = def_value(hits[0]).id
+                    la_ = c.enclosing(hits[0], types=(ast.For,), role="body")
+                    nxt_ = [m for m, _l in hits[0].succ] if hits[0].kind != "store" else []
+                    after = c.reachable([hits[0]], exc=False)
+                    brk = [n for n in after if n.kind == "break"]
+                    ok = holds_at(c, hits[0], mn, "<=", f"{lv_}.API_VERSION") and holds_at(c, hits[0], f"{lv_}.API_VERSION", "<=", mx) \
+                        and ((a0.id, "is not", "None") in must_facts(c)[b]) and bool(la_) and unparse(la_[0][0].iter) == "reversed(self._CLASSES)" \
+                        and unparse(la_[0][0].target) == lv_ and bool(brk) and c.loop_head(la_[0][0]) not in c.reachable([hits[0]], avoid=set(brk), exc=False)
+                    chosen_local = ok
             ctx.ob(R, fi, b, ok, f"prepare() can build {unparse(a0)} without `{mn} <= {unparse(a0)}.API_VERSION <= {mx}`: a version outside the broker's range would be put in the header", text="in-range:" + unparse(a0))
             la = c.enclosing(b, types=(ast.For,), role="body")
-            ok = bool(la) and unparse(la[0][0].iter) == "reversed(self._CLASSES)" and unparse(la[0][0].target) == unparse(a0)
+            ok = chosen_local or (bool(la) and unparse(la[0][0].iter) == "reversed(self._CLASSES)" and unparse(la[0][0].target) == unparse(a0))
             ctx.ob(R, fi, b, ok, "candidates are not scanned highest version first", text="highest-first:" + unparse(a0))
             ctx.ob(R, fi, b, isinstance(b.stmt, ast.Return), "the first struct in range is not returned", text="returns-first")
         else:
